@@ -2,6 +2,11 @@
 //
 //	ca t=<ranges>;p=<peer ip16>;pt=<peer text>;pp=<port>;h=<host>;hd=<header map>;lt=<local text>;ipd=…;ptd=…
 //
+//	rl <step>/<step>/…   a trust-table RELOAD HISTORY through the real module: `L.<version hex>.<ranges|_>.<kind>` writes the
+//	                     data file (kind ok | badjson | nover | badrange | badip) and runs Init (first step) or the reload
+//	                     handler; `C.<connection as in ca, t=_>` is a connection judged against the table in force
+//
+// After mod_header the request copy goes through the REAL httpProtoSet + hopByHopHeaderRemove (`up=` = headers sent upstream).
 // runs the REAL mod_trust_clientip (ipItemsMake + IPTable + acceptHandler) on a session of that peer, the REAL
 // bfe_server.setClientAddr and the REAL mod_header.setDefaultHeader, and prints req.ClientAddr and the header map.
 // ipd/ptd are the net.ParseIP / strconv.Atoi facts the Lean model consumes; exec re-checks them.
@@ -10,7 +15,10 @@ package main
 import (
 	"bytes"
 	"fmt"
+	"io/ioutil"
 	"net"
+	"os"
+	"path/filepath"
 	"strconv"
 	"strings"
 	"time"
@@ -190,60 +198,191 @@ func decode(s string) (*input, bool) {
 	return in, true
 }
 
-func exec(op string) string {
-	f := strings.Split(op, " ")
-	if len(f) != 2 || f[0] != "ca" {
-		return "bad-op"
-	}
-	in, ok := decode(f[1])
-	if !ok {
-		return "bad-op"
-	}
-	// the op's facts must be what the std lib says
+// checkInput validates a decoded connection against its own canonical encoding and the std-lib facts.
+func checkInput(in *input, payload string) bool {
 	in.facts()
-	if in.encode() != op || in.peer.String() != in.peerText {
-		return "bad-op"
+	if strings.TrimPrefix(in.encode(), "ca ") != payload || in.peer.String() != in.peerText {
+		return false
 	}
 	lip := net.ParseIP(in.local)
 	if lip == nil || lip.String() != in.local {
-		return "bad-op"
+		return false
 	}
 	for k := range in.hdr {
 		if bfe_http.CanonicalHeaderKey(k) != k {
-			return "bad-op"
+			return false
 		}
 	}
 	for _, r := range in.ranges {
 		if bytes.Compare(r[0], r[1]) > 0 {
-			return "bad-op"
+			return false
 		}
 	}
-	// 1. trust table + accept handler
-	scopes := mod_trust_clientip.AddrScopeList{}
-	for _, r := range in.ranges {
-		scopes = append(scopes, mod_trust_clientip.AddrScope{Begin: r[0], End: r[1]})
-	}
-	conf := mod_trust_clientip.TrustIPConf{Version: "v", Config: mod_trust_clientip.SrcScopeMap{"src": &scopes}}
+	return true
+}
+
+// runConn: one connection from in.peer with in.hdr; accept decides the session's trust flag.
+func runConn(in *input, accept func(*bfe_basic.Session) error) string {
+	lip := net.ParseIP(in.local)
 	conn := &fakeConn{local: &net.TCPAddr{IP: lip, Port: 8080}, remote: &net.TCPAddr{IP: in.peer, Port: in.port}}
 	session := bfe_basic.NewSession(conn)
-	if err := mod_trust_clientip.VerifAccept(conf, session); err != nil {
+	if err := accept(session); err != nil {
 		return "err:conf"
 	}
-	// 2. the request as the http server hands it to the proxy
+	// the request as the http server hands it to the proxy
 	hreq := &bfe_http.Request{Method: "GET", Host: in.host, Header: bfe_http.Header{}, RemoteAddr: conn.RemoteAddr().String(),
 		State: &bfe_http.RequestState{}}
 	for k, vs := range in.hdr {
 		hreq.Header[k] = append([]string{}, vs...)
 	}
 	req := &bfe_basic.Request{Connection: conn, Session: session, RemoteAddr: session.RemoteAddr, HttpRequest: hreq}
-	// 3. ReverseProxy.ServeHTTP: setClientAddr; HandleAfterLocation: mod_header default headers
+	// ReverseProxy.ServeHTTP: setClientAddr; HandleAfterLocation: mod_header default headers;
+	// then outreq = copy, httpProtoSet, hopByHopHeaderRemove
 	bfe_server.VerifSetClientAddr(req)
 	mod_header.VerifSetDefaultHeader(req)
+	outreq := new(bfe_http.Request)
+	*outreq = *hreq
+	bfe_server.VerifHttpProtoSet(outreq)
+	bfe_server.VerifHopByHopHeaderRemove(outreq, hreq)
 	ca := "nil"
 	if req.ClientAddr != nil {
 		ca = hx(req.ClientAddr.IP.String()) + ":" + strconv.Itoa(req.ClientAddr.Port)
 	}
-	return "ca=" + ca + " hd=" + c25lib.HeaderString(hreq.Header)
+	return "ca=" + ca + " hd=" + c25lib.HeaderString(nonEmpty(hreq.Header)) + " up=" + c25lib.HeaderString(nonEmpty(outreq.Header))
+}
+
+// nonEmpty drops keys without values (nothing is written for them; CopyHeader drops them too).
+func nonEmpty(h bfe_http.Header) map[string][]string {
+	out := map[string][]string{}
+	for k, vs := range h {
+		if len(vs) > 0 {
+			out[k] = vs
+		}
+	}
+	return out
+}
+
+func execCa(payload string) string {
+	in, ok := decode(payload)
+	if !ok || !checkInput(in, payload) {
+		return "bad-op"
+	}
+	scopes := mod_trust_clientip.AddrScopeList{}
+	for _, r := range in.ranges {
+		scopes = append(scopes, mod_trust_clientip.AddrScope{Begin: r[0], End: r[1]})
+	}
+	conf := mod_trust_clientip.TrustIPConf{Version: "v", Config: mod_trust_clientip.SrcScopeMap{"src": &scopes}}
+	return runConn(in, func(s *bfe_basic.Session) error { return mod_trust_clientip.VerifAccept(conf, s) })
+}
+
+// dataFile renders the trust-ip data file of one load step.
+func dataFile(version string, ranges [][2]net.IP, kind string) string {
+	var sc []string
+	for i, r := range ranges {
+		b, e := r[0].String(), r[1].String()
+		if kind == "badrange" && i == 0 {
+			b, e = "10.9.9.9", "10.0.0.1"
+		}
+		if kind == "badip" && i == 0 {
+			b = "999.1.1.1"
+		}
+		sc = append(sc, fmt.Sprintf(`{"begin": %q, "end": %q}`, b, e))
+	}
+	if (kind == "badrange" || kind == "badip") && len(ranges) == 0 {
+		sc = append(sc, map[string]string{"badrange": `{"begin": "10.9.9.9", "end": "10.0.0.1"}`, "badip": `{"begin": "999.1.1.1", "end": "10.0.0.1"}`}[kind])
+	}
+	body := fmt.Sprintf(`"Config": {"src": [%s]}`, strings.Join(sc, ","))
+	switch kind {
+	case "badjson":
+		return fmt.Sprintf(`{"Version": %q, "Config": {"src": [`, version)
+	case "nover":
+		return "{" + body + "}"
+	}
+	return fmt.Sprintf(`{"Version": %q, %s}`, version, body)
+}
+
+func execHistory(spec string) string {
+	steps := strings.Split(spec, "/")
+	if len(steps) == 0 || len(steps) > 16 {
+		return "bad-op"
+	}
+	root, err := ioutil.TempDir("", "verif-c29-")
+	if err != nil {
+		return "bad-op"
+	}
+	defer os.RemoveAll(root)
+	dir := filepath.Join(root, "mod_trust_clientip")
+	os.MkdirAll(dir, 0755)
+	data := filepath.Join(dir, "trust_client_ip.data")
+	ioutil.WriteFile(filepath.Join(dir, "mod_trust_clientip.conf"), []byte("[basic]\nDataPath = mod_trust_clientip/trust_client_ip.data\n"), 0644)
+	var mod *mod_trust_clientip.VerifC29Module
+	var out []string
+	for _, st := range steps {
+		f := strings.Split(st, ".")
+		switch {
+		case len(f) == 4 && f[0] == "L":
+			ver, ok := vh.UnHex(f[1])
+			for _, c := range ver {
+				if !(c >= 'a' && c <= 'z' || c >= '0' && c <= '9' || c == '.' || c == '-') {
+					ok = false
+				}
+			}
+			in, ok2 := decode("t=" + f[2] + ";p=00000000000000000000000000000001;pt=-;pp=0;h=-;hd=_;lt=-")
+			if !ok || !ok2 {
+				return "bad-op"
+			}
+			switch f[3] {
+			case "ok", "badjson", "nover", "badrange", "badip":
+			default:
+				return "bad-op"
+			}
+			for _, r := range in.ranges {
+				if bytes.Compare(r[0], r[1]) > 0 {
+					return "bad-op"
+				}
+			}
+			ioutil.WriteFile(data, []byte(dataFile(string(ver), in.ranges, f[3])), 0644)
+			var lerr error
+			if mod == nil {
+				var m *mod_trust_clientip.VerifC29Module
+				if m, lerr = mod_trust_clientip.VerifC29Init(root); lerr == nil {
+					mod = m
+				} else if f[3] == "ok" {
+					return "err:init"
+				} else {
+					return "bad-op" // the first load must be a good one (bfe would not start)
+				}
+			} else {
+				lerr = mod.Reload()
+			}
+			if lerr == nil {
+				out = append(out, "L=ok")
+			} else {
+				out = append(out, "L=err")
+			}
+		case len(f) == 2 && f[0] == "C":
+			in, ok := decode(f[1])
+			if !ok || mod == nil || len(in.ranges) != 0 || !checkInput(in, f[1]) {
+				return "bad-op"
+			}
+			m := mod
+			out = append(out, runConn(in, func(s *bfe_basic.Session) error { m.Accept(s); return nil }))
+		default:
+			return "bad-op"
+		}
+	}
+	return strings.Join(out, "/")
+}
+
+func exec(op string) string {
+	f := strings.Split(op, " ")
+	switch {
+	case len(f) == 2 && f[0] == "ca":
+		return execCa(f[1])
+	case len(f) == 2 && f[0] == "rl":
+		return execHistory(f[1])
+	}
+	return "bad-op"
 }
 
 // ---------------------------------------------------------------- generation
@@ -290,6 +429,13 @@ func portText(r *vh.Rand) string {
 }
 
 func gen(r *vh.Rand) string {
+	if r.Chance(1, 5) {
+		return genHistory(r)
+	}
+	return genConn(r)
+}
+
+func genConn(r *vh.Rand) string {
 	in := &input{hdr: map[string][]string{}}
 	v6 := r.Chance(1, 3)
 	in.peer = randIP(r, v6)
@@ -369,8 +515,96 @@ func gen(r *vh.Rand) string {
 	if r.Chance(1, 3) {
 		set("Accept", "*/*")
 	}
+	if r.Chance(1, 3) { // the client's Connection header names headers (BFE's own among them)
+		n := r.Range(1, 3)
+		var toks []string
+		for i := 0; i < n; i++ {
+			toks = append(toks, r.Pick("", " ")+r.Pick("X-Real-Ip", "x-real-port", "X-Forwarded-For", "x-forwarded-port", "X-Forwarded-Host",
+				"X-Bfe-Ip", "close", "keep-alive", "Accept", "x-bfe-log-id", "X-Nope")+r.Pick("", " "))
+		}
+		vs := []string{strings.Join(toks, ",")}
+		if r.Chance(1, 5) {
+			vs = append([]string{""}, vs...)
+		}
+		set("Connection", vs...)
+	}
 	in.facts()
 	return in.encode()
+}
+
+func verText(r *vh.Rand) string { return r.Pick("v1", "v1", "v2", "", "2026-01-01", "v1.1") }
+
+func rangesText(rs [][2]net.IP) string {
+	if len(rs) == 0 {
+		return "_"
+	}
+	var out []string
+	for _, x := range rs {
+		out = append(out, vh.Hex(x[0].To16())+"-"+vh.Hex(x[1].To16()))
+	}
+	return strings.Join(out, ",")
+}
+
+// genHistory: initial load, then reloads (same / different / empty Version; peers added and removed; files the loader
+// refuses) interleaved with connections from the peers concerned, carrying spoofed address headers.
+func genHistory(r *vh.Rand) string {
+	p1 := randIP(r, r.Chance(1, 4))
+	p2 := add(p1, r.Range(1, 9))
+	peers := []net.IP{p1, p2}
+	mkRanges := func() [][2]net.IP {
+		var rs [][2]net.IP
+		for _, p := range peers {
+			if r.Bool() {
+				rs = append(rs, [2]net.IP{p, p})
+			}
+		}
+		if r.Chance(1, 4) {
+			a := randIP(r, false)
+			rs = append(rs, [2]net.IP{a, add(a, r.Intn(5))})
+		}
+		return rs
+	}
+	ver := verText(r)
+	steps := []string{"L." + hx(ver) + "." + rangesText(mkRanges()) + ".ok"}
+	connStep := func() string {
+		in := &input{hdr: map[string][]string{}}
+		in.peer = peers[r.Intn(2)]
+		in.peerText = in.peer.String()
+		in.port = []int{1, 80, 4242}[r.Intn(3)]
+		in.host = "example.com"
+		in.local = "10.9.8.7"
+		if r.Chance(3, 4) {
+			in.hdr["X-Real-Ip"] = []string{r.Pick("1.1.1.1", "2001:db8::9", "bogus")}
+		}
+		if r.Chance(1, 2) {
+			in.hdr["X-Real-Port"] = []string{r.Pick("1", "70000")}
+		}
+		if r.Chance(1, 2) {
+			in.hdr["X-Forwarded-For"] = []string{"2.2.2.2, 3.3.3.3"}
+		}
+		if r.Chance(1, 4) {
+			in.hdr["Connection"] = []string{r.Pick("X-Real-Ip", "x-forwarded-for, x-real-port", "close")}
+		}
+		in.facts()
+		return "C." + strings.TrimPrefix(in.encode(), "ca ")
+	}
+	n := r.Range(2, 7)
+	for i := 0; i < n; i++ {
+		if r.Chance(2, 5) {
+			kind := "ok"
+			if r.Chance(1, 5) {
+				kind = r.Pick("badjson", "nover", "badrange", "badip")
+			}
+			if !r.Chance(1, 2) { // half of the reloads keep the Version
+				ver = verText(r)
+			}
+			steps = append(steps, "L."+hx(ver)+"."+rangesText(mkRanges())+"."+kind)
+			steps = append(steps, connStep())
+		} else {
+			steps = append(steps, connStep())
+		}
+	}
+	return "rl " + strings.Join(steps, "/")
 }
 
 func pre(emit func(string), thorough bool) {
@@ -392,6 +626,18 @@ func pre(emit func(string), thorough bool) {
 	emit(mk(true, map[string][]string{"X-Real-Ip": {"bogus"}, "X-Forwarded-For": {"2.2.2.2"}}))
 	emit(mk(true, map[string][]string{}))
 	emit(mk(false, map[string][]string{}))
+	// the client names BFE's own headers in its Connection header: they must still reach the backend
+	emit(mk(false, map[string][]string{"Connection": {"X-Real-Ip, x-real-port, X-Forwarded-For"}, "X-Real-Ip": {"1.1.1.1"}}))
+	emit(mk(true, map[string][]string{"Connection": {"X-Real-Ip"}, "X-Real-Ip": {"1.1.1.1"}}))
+	// reload history: peer 10.0.0.5 trusted, then removed by a reload that KEEPS the Version, then a refused file
+	c := func(hdr map[string][]string) string {
+		return "C." + strings.TrimPrefix(strings.Replace(mk(false, hdr), "t=00000000000000000000ffff0a000006-00000000000000000000ffff0a0000ff", "t=_", 1), "ca ")
+	}
+	p5 := "00000000000000000000ffff0a000005"
+	spoofed := map[string][]string{"X-Real-Ip": {"1.1.1.1"}, "X-Real-Port": {"1"}}
+	emit("rl L." + hx("v1") + "." + p5 + "-" + p5 + ".ok/" + c(spoofed) + "/L." + hx("v1") + "._.ok/" + c(spoofed) +
+		"/L." + hx("v2") + "." + p5 + "-" + p5 + ".badjson/" + c(spoofed) + "/L." + hx("") + "." + p5 + "-" + p5 + ".ok/" + c(spoofed) +
+		"/L." + hx("") + "._.ok/" + c(spoofed))
 }
 
 func main() {
